@@ -310,6 +310,88 @@ func c04History(t *testing.T, rng *rand.Rand, concurrent bool) (viols [][2]strin
 	return
 }
 
+// c04Edge: user events and queries whose Lamport times sit at the edges of small
+// de-duplication buffers (t, t+B-1, t+B, t+B+1, t+2B ...: same slot, just inside, just
+// outside the window), delivered with duplicates in any order. Whatever the window, a
+// given message may be re-broadcast at most once: after it has been handled the clock is
+// past it, so every handled message that is still in the window has a slot of its own.
+func c04Edge(t *testing.T, rng *rand.Rand) (viols [][2]string, stats map[string]int, desc string) {
+	stats = map[string]int{}
+	var sb strings.Builder
+	synctest.Test(t, func(t *testing.T) {
+		B := []int{1, 2, 3, 4, 8, 16}[rng.Intn(6)]
+		net := simnet.New(1)
+		nd, err := cluster.Start(net, cluster.Opts{Name: "self", IP: "10.0.0.1", Profile: "passive", EventBuf: 1 << 15,
+			Mutate: func(c *serf.Config) {
+				c.BroadcastTimeout, c.LeavePropagateDelay = 0, 0
+				c.EventBuffer, c.QueryBuffer = B, B
+			}})
+		if err != nil {
+			viols = append(viols, [2]string{"setup", err.Error()})
+			return
+		}
+		defer nd.Close()
+		tr := &c04Tracker{seenPtr: map[uintptr]bool{}}
+		synctest.Wait()
+		tr.poll(nd)
+		base := uint64(1 + rng.Intn(3*B+2))
+		offs := []int{0, 1, B - 1, B, B + 1, 2*B - 1, 2 * B, 2*B + 1, 3 * B}
+		var pool []c04Msg
+		for i, n := 0, 4+rng.Intn(8); i < n; i++ {
+			lt := base + uint64(offs[rng.Intn(len(offs))])
+			if rng.Intn(2) == 0 {
+				pl := fmt.Sprint(rng.Intn(2))
+				pool = append(pool, c04Msg{wire.Encode(wire.UserEvent, &wire.MsgUserEvent{LTime: lt, Name: "e", Payload: []byte(pl)}), fmt.Sprintf("event(%d,%s)", lt, pl), ""})
+			} else {
+				id := uint32(rng.Intn(2))
+				pool = append(pool, c04Msg{wire.Encode(wire.Query, &wire.MsgQuery{LTime: lt, ID: id, Addr: []byte{10, 0, 0, 9}, Port: 7946, SourceNode: "src",
+					Timeout: time.Second, Name: "q"}), fmt.Sprintf("query(%d,id%d)", lt, id), ""})
+			}
+		}
+		fmt.Fprintf(&sb, "B=%d ", B)
+		enq := map[string]int{}
+		descOf := map[string]string{}
+		for _, m := range pool {
+			descOf[string(m.Buf)] = m.Desc
+		}
+		steps := 10 + rng.Intn(50)
+		for i := 0; i < steps && len(viols) < 3; i++ {
+			if rng.Intn(10) == 0 {
+				lt := base + uint64(offs[rng.Intn(len(offs))])
+				pp := &wire.MsgPushPull{LTime: 1, StatusLTimes: map[string]uint64{}, EventLTime: lt + uint64(rng.Intn(2)), QueryLTime: base + uint64(offs[rng.Intn(len(offs))])}
+				pp.Events = []*wire.UserEvents{{LTime: lt, Events: []wire.UserEv{{Name: "e", Payload: []byte(fmt.Sprint(rng.Intn(2)))}}}}
+				nd.ML.Delegate.MergeRemoteState(wire.Encode(wire.PushPull, pp), false)
+				synctest.Wait()
+				fmt.Fprintf(&sb, "merge(ev=%d,evclock=%d,qclock=%d) ", lt, pp.EventLTime, pp.QueryLTime)
+				stats["merges"]++
+				for _, f := range tr.poll(nd) {
+					viols = append(viols, [2]string{"merge-enqueue", fmt.Sprintf("step %d: state-sync merge enqueued a broadcast: % x", i, f)})
+				}
+				continue
+			}
+			m := pool[rng.Intn(len(pool))]
+			nd.NotifyMsg(append([]byte(nil), m.Buf...))
+			synctest.Wait()
+			sb.WriteString(m.Desc + " ")
+			stats["deliveries"]++
+			for _, f := range tr.poll(nd) {
+				k := string(f)
+				if k != string(m.Buf) {
+					viols = append(viols, [2]string{"foreign-enqueue", fmt.Sprintf("step %d %s: enqueued a message that was not delivered in this step: % x", i, m.Desc, f)})
+					continue
+				}
+				enq[k]++
+				stats["rebroadcasts"]++
+				if enq[k] > 1 {
+					viols = append(viols, [2]string{"rebroadcast-twice/window-edge", fmt.Sprintf("step %d: %s re-broadcast %d times (buffer size %d)", i, descOf[k], enq[k], B)})
+				}
+			}
+		}
+	})
+	desc = sb.String()
+	return
+}
+
 func TestC04(t *testing.T) {
 	r := evid.Start(t, "C04", "exploration")
 	race := os.Getenv("VERIF_PHASE") == "race"
@@ -338,6 +420,23 @@ func TestC04(t *testing.T) {
 	}
 	run("seq", n, false)
 	run("conc", nc, true)
+	ne := r.N(3000, 100000)
+	if race {
+		ne = r.N(60, 2000)
+	}
+	r.Cases("edge", ne, 0, func(ci int, rng *rand.Rand) {
+		viols, stats, desc := c04Edge(t, rng)
+		r.Eval(1)
+		for k, v := range stats {
+			r.Count("edge_"+k, v)
+		}
+		if stats["rebroadcasts"] > 0 && stats["deliveries"] > stats["rebroadcasts"] {
+			r.Distinct(desc)
+		}
+		for _, v := range viols {
+			r.Violation(v[0], ci, v[1]+" ; history: "+desc, desc)
+		}
+	})
 	floor := 300
 	if race {
 		floor = 10
